@@ -77,6 +77,7 @@ func zzH_C05() {
 		return
 	}
 	zzTreeMark(f)
+	zzGlobalsMark()
 	n := zzParamInt("history")
 	var results [][]interface{}
 	var snaps [][]interface{}
@@ -94,6 +95,7 @@ func zzH_C05() {
 			return
 		}
 		zzAssert(zzTreeUnchanged(), "parsed-tree-unchanged")
+		zzAssert(zzGlobalsUnchanged(), "package-constants-unchanged")
 		zzAssert(zzPoisonClean(), "no-use-of-recycled-buffer")
 		zzAssert(zzFresh(got, ep), "result-slice-is-fresh")
 		// same outcome as a fresh Retrieve of the same path on this document
